@@ -1,4 +1,5 @@
 import PhysisModel.Proofs.PatchCreate
+import PhysisModel.Proofs.PatchWriter
 /-!
 # C04 — a created patch turns the old tree into the new tree
 
@@ -60,6 +61,14 @@ theorem c04_create_apply (inflate : Bytes → Nat → Option Bytes) (A B : Tree)
   obtain ⟨T, h1, h2⟩ := create_apply inflate A la lb H (fun p d => by rw [hla, fileAt_iff]) hokA hne
     (hsz la _ hszA hmemA) (hsz lb _ hszB hmemB)
   exact ⟨T, h1, fun p d => by rw [← fileAt_iff, h2, hlb]⟩
+
+/-- **The writer, seek by seek.**  `Patch.createSeek` drives a cursor the way the code drives its
+`BufWriter<Cursor<&mut Vec<u8>>>` — chunk with zero crc, `seek(Current(-4))`, block header with its
+`restore_position` field, data, `seek(Current(4))`, zero-fill on the next write — and ends with
+exactly the bytes `Patch.create` states, for all listings (no seek ever fails). -/
+theorem c04_create_seek (base new : List (Path × Bytes)) :
+    Patch.createSeek base new = some (Patch.create base new) :=
+  createSeek_eq base new
 
 /-- **The listing order does not matter**: two runs of `create` that saw the directory entries in
 different orders produce patches with the same effect on the files of `A`. -/
